@@ -29,6 +29,8 @@ type verifReq struct {
 type verifHash struct {
 	fields []string
 	vals   []string
+	hasTTL bool
+	ttl    string
 }
 
 // verifObj is a non-hash key: how it was created/modified and its expiry.
@@ -213,6 +215,9 @@ type verifFake struct {
 	// encoding): cluster.c restoreCommand answers "Bad data format" after the BUSYKEY test and before
 	// anything is deleted or created
 	badDump bool
+	// timePasses: at least a millisecond passes between two requests: a key whose time to live is 1 ms
+	// (the replay's rendering of "already past its expiry") is gone when the next request arrives
+	timePasses bool
 }
 
 var verifErrReply = common.RedisError("OOM command not allowed when used memory > 'maxmemory'")
@@ -243,6 +248,23 @@ func verifArgStr(a interface{}) string {
 
 // apply executes one request against the state and returns its reply.
 func (f *verifFake) apply(r verifReq) interface{} {
+	if f.timePasses {
+		for i := 0; i < len(f.st.objs); {
+			if o := f.st.objs[i]; o.hasTTL && o.ttl == "1" {
+				f.st.objs = append(f.st.objs[:i], f.st.objs[i+1:]...)
+				continue
+			}
+			i++
+		}
+		for i := 0; i < len(f.st.hashKeys); {
+			if h := f.st.hashes[i]; h.hasTTL && h.ttl == "1" {
+				f.st.hashKeys = append(f.st.hashKeys[:i], f.st.hashKeys[i+1:]...)
+				f.st.hashes = append(f.st.hashes[:i], f.st.hashes[i+1:]...)
+				continue
+			}
+			i++
+		}
+	}
 	switch r.cmd {
 	case "ping":
 		return "PONG"
@@ -406,6 +428,10 @@ func (f *verifFake) apply(r verifReq) interface{} {
 	case "pexpire", "expire":
 		o := f.st.obj(r.db, verifArgStr(r.args[0]), false)
 		if o == nil {
+			if h := f.st.hash(r.db, verifArgStr(r.args[0]), false); h != nil {
+				h.hasTTL, h.ttl = true, verifArgStr(r.args[1])
+				return int64(1)
+			}
 			return int64(0)
 		}
 		o.hasTTL, o.ttl = true, verifArgStr(r.args[1])
